@@ -21,6 +21,11 @@ const KNOWN_EXC: &str = "C13-exception-overridden-by-high-digit";
 /// A letter = (lower-case form, upper-case form). The non-ASCII ones make the byte offset of a
 /// letter differ from its index (the implementation slices the word by byte offsets).
 const ASCII3: &[(char, char)] = &[('a', 'A'), ('b', 'B'), ('c', 'C')];
+const ASCII26: &[(char, char)] = &[
+    ('a', 'A'), ('b', 'B'), ('c', 'C'), ('d', 'D'), ('e', 'E'), ('f', 'F'), ('g', 'G'), ('h', 'H'), ('i', 'I'),
+    ('j', 'J'), ('k', 'K'), ('l', 'L'), ('m', 'M'), ('n', 'N'), ('o', 'O'), ('p', 'P'), ('q', 'Q'), ('r', 'R'),
+    ('s', 'S'), ('t', 'T'), ('u', 'U'), ('v', 'V'), ('w', 'W'), ('x', 'X'), ('y', 'Y'), ('z', 'Z'),
+];
 const ASCII4: &[(char, char)] = &[('a', 'A'), ('b', 'B'), ('c', 'C'), ('d', 'D')];
 const MULTI3: &[(char, char)] = &[('a', 'A'), ('é', 'É'), ('ж', 'Ж')];
 const MULTI4: &[(char, char)] = &[('a', 'A'), ('é', 'É'), ('ж', 'Ж'), ('ḁ', 'Ḁ')];
@@ -741,6 +746,7 @@ impl Monitor for M {
             Phase::new("sets", tier.pick(5_000, 240_000)).batch(8),
             Phase::new("long", tier.pick(10_000, 400_000)).batch(32),
             Phase::new("plain", tier.pick(4_000, 100_000)).batch(16),
+            Phase::new("bulk", tier.pick(16, 160)).batch(1),
         ]
     }
 
@@ -748,6 +754,7 @@ impl Monitor for M {
         let q = tier == Tier::Quick;
         vec![
             ("words_checked", if q { 11_200_000 } else { 12 * 11_200_000 }),
+            ("bulk_words_with_positions", if q { 3_000 } else { 30_000 }),
             ("words_with_positions", if q { 4_000_000 } else { 12 * 4_000_000 }),
             ("words_in_exception_list", if q { 20_000 } else { 12 * 20_000 }),
             ("exception_words_where_patterns_also_match", if q { 8_000 } else { 12 * 8_000 }),
@@ -820,6 +827,7 @@ impl Monitor for M {
             "sets" => run_set(idx, rng, obs),
             "long" => run_long(rng, obs),
             "plain" => run_plain(rng, obs),
+            "bulk" => run_bulk(rng, obs),
             _ => obs.inconclusive(format!("unknown phase {phase}")),
         }
     }
@@ -1152,6 +1160,115 @@ fn run_long(rng: &mut Rng, obs: &mut Obs) {
     }
     if obs.wants_sample() {
         obs.sample(json!({"config": cfg_json(&cfg)}));
+    }
+}
+
+/// A pattern set of the size of a large language's (tens of thousands of patterns, far more than 64 KiB of stored
+/// levels), then a few patterns and exceptions loaded AFTER it: whatever the implementation keeps per pattern (offsets
+/// into its level store, node numbers) is exercised beyond 16 bits. The words are built around the late patterns and
+/// the late exceptions, and around bulk patterns stored early and late.
+fn run_bulk(rng: &mut Rng, obs: &mut Obs) {
+    let abc: Vec<char> = ('a'..='z').collect();
+    let mut cfg = Config::default();
+    let mut keys = std::collections::HashSet::new();
+    let level = |rng: &mut Rng| rng.range_usize(1, 9) as u8;
+    // every three-letter key, and the four-letter keys behind two random first letters
+    let firsts = [*rng.pick(&abc), *rng.pick(&abc)];
+    let mut bulk: Vec<Vec<char>> = vec![];
+    for a in &abc {
+        for b in &abc {
+            for c in &abc {
+                bulk.push(vec![*a, *b, *c]);
+                for f in firsts {
+                    bulk.push(vec![f, *a, *b, *c]);
+                }
+            }
+        }
+    }
+    for letters in &bulk {
+        if !keys.insert((false, false, letters.clone())) {
+            continue;
+        }
+        let mut digits = vec![0u8; letters.len() + 1];
+        for d in digits.iter_mut() {
+            if rng.chance(2, 3) {
+                *d = level(rng);
+            }
+        }
+        if digits.iter().all(|d| *d == 0) {
+            digits[1] = level(rng);
+        }
+        cfg.patterns.push(pattern_text(false, false, letters, &digits));
+    }
+    let n_bulk = cfg.patterns.len();
+    // the late patterns: keys of two and five..seven letters, some anchored
+    let mut late: Vec<Vec<char>> = vec![];
+    for _ in 0..rng.range_usize(4, 12) {
+        let len = *rng.pick(&[2usize, 2, 5, 6, 7]);
+        let (start, end, letters, mut digits) = gen_pattern(rng, ASCII26, len);
+        if digits.iter().all(|d| *d == 0) {
+            digits[len / 2] = level(rng);
+        }
+        if keys.insert((start, end, letters.clone())) {
+            cfg.patterns.push(pattern_text(start, end, &letters, &digits));
+            late.push(letters);
+        }
+    }
+    let mut exc_words: Vec<String> = vec![];
+    for _ in 0..rng.range_usize(1, 4) {
+        let e = gen_exception(rng, ASCII26, 8);
+        exc_words.push(e.chars().filter(|c| *c != '-').collect());
+        cfg.exceptions.push(e);
+    }
+    let (real, model) = match build(&cfg, LcKind::Ascii) {
+        Ok(x) => x,
+        Err(p) => {
+            obs.repo_panic(&p, json!({"bulk_patterns": n_bulk, "late_patterns": &cfg.patterns[n_bulk..], "exceptions": cfg.exceptions}));
+            return;
+        }
+    };
+    obs.count("bulk_sets");
+    obs.add("bulk_patterns_loaded", cfg.patterns.len() as u64);
+    let tail: Vec<String> = cfg.patterns[n_bulk..].to_vec();
+    let excs = cfg.exceptions.clone();
+    let dsc = move || json!({"bulk_patterns": n_bulk, "late_patterns": tail, "exceptions": excs});
+    let mut samples = vec![];
+    for i in 0..400 {
+        let mut w: Vec<char> = (0..rng.range_usize(0, 4)).map(|_| *rng.pick(&abc)).collect();
+        match i % 4 {
+            0 if !late.is_empty() => w.extend(rng.pick(&late).iter()),
+            1 if !exc_words.is_empty() => {
+                if rng.coin() {
+                    w.clear();
+                }
+                w.extend(rng.pick(&exc_words).chars());
+                if rng.chance(1, 3) {
+                    w.push(*rng.pick(&abc));
+                }
+            }
+            2 => w.extend(bulk[bulk.len() - 1 - rng.usize_below(3000)].iter()),
+            _ => w.extend(bulk[rng.usize_below(bulk.len())].iter()),
+        }
+        if i % 4 != 1 {
+            w.extend((0..rng.range_usize(0, 4)).map(|_| *rng.pick(&abc)));
+        }
+        let mut word: String = w.iter().collect();
+        if rng.chance(1, 6) {
+            word = word.to_ascii_uppercase();
+        }
+        obs.count("bulk_words_checked");
+        if let Some(f) = check_word(obs, &real, &model, &dsc, &word, false) {
+            if f.has_position {
+                obs.count("bulk_words_with_positions");
+                obs.nontrivial(&("bulk", n_bulk, &word, &cfg.patterns[n_bulk..]));
+                if samples.len() < 2 {
+                    samples.push(json!({"word": word}));
+                }
+            }
+        }
+    }
+    if obs.wants_sample() {
+        obs.sample(json!({"bulk_patterns": n_bulk, "late_patterns": &cfg.patterns[n_bulk..], "exceptions": cfg.exceptions, "words": samples}));
     }
 }
 
